@@ -15,6 +15,7 @@ RULE = ('Hypothesis-generated (state, filter, microversion) triples: C03-scope '
         'with a set comprehension over the raw dump (direct aggregate '
         'membership, own traits, per-class room under capacity/min/max/step); '
         'unknown in_tree/uuid or only-unknown aggregates => []; unknown trait '
+        '(required, forbidden - alone or next to known ones -, any-of member) '
         'or class => 400. Non-trivial = >= 2 filters active and 0 < |result| < '
         '|providers|; distinct = distinct (state, filter).')
 
@@ -71,6 +72,21 @@ def case_fn(ctx, svc, d, draw, desc, snap):
         expect_400 = True
     elif draw(st.integers(0, 19)) == 7 and version >= 4:
         f.resources['CUSTOM_PV_NOPE'] = 1
+        expect_400 = True
+    elif draw(st.integers(0, 19)) == 7 and version >= 22:
+        # an unknown name among the forbidden traits, alone or next to known
+        # ones
+        if draw(st.booleans()):
+            known = [t for t in gen.TRAITS
+                     if not any(t in a for a in f.required)]
+            if known:
+                f.forbidden.add(draw(st.sampled_from(known)))
+        f.forbidden.add('CUSTOM_PV_NOPE')
+        expect_400 = True
+    elif draw(st.integers(0, 29)) == 7 and version >= 39:
+        # an unknown name inside an any-of set
+        f.required.append({'CUSTOM_PV_NOPE', draw(st.sampled_from(
+            gen.TRAITS))})
         expect_400 = True
     qs = f.render(version, draw)
     check(ctx, svc, d, f, version, qs, desc, expect_400)
